@@ -403,13 +403,10 @@ func (dn *dirNode) size() int64 {
 
 // fileNode
 
-// delete removes all information from the node, decrements the reference counter of the fileNode.
-// If there is no more references, the data is deleted.
+// delete decrements the reference counter of the fileNode.
 func (fn *fileNode) delete() {
+	// The data is kept : handles opened before the last name was removed still use it.
 	fn.nlink--
-	if fn.nlink == 0 {
-		fn.data = nil
-	}
 }
 
 // fillStatFrom returns a MemInfo (implementation of fs.FileInfo) from a fileNode fn named name.
